@@ -8,6 +8,18 @@ PY = '/venv/bin/python'
 
 MC = 'model_checking'
 CHECKS = {
+    'C07': (MC, 'differential explicit-state exploration: every (state, op) of the base chart BFS replayed on all declaration variants in-process, plus run digests recomputed in subprocesses under several PYTHONHASHSEED values',
+            'Every skeleton chart (<=5-6 states) is built in all sibling-permutation / transition-order / API-vs-YAML variants; each (state, op) of the complete base BFS is replayed on every variant and twice on the base; macro-step signatures (event, transitions, exit/entry order, sent events, context, error class) must be identical. A digest of a whole exploration of the deep-history+orthogonal skeletons (<=7 states) is recomputed in fresh processes per hash seed.',
+            'No hand-written expectation (differential). A finite set of hash seeds; sibling permutations are sampled one group at a time above 24 combinations.',
+            '§4 C07'),
+    'C17': (MC, 'differential explicit-state exploration: base chart BFS replayed on every renamed chart and on the chart plugged into hosts by copy_from_statechart',
+            'For every skeleton chart (incl. history, internal and external transitions) each single state, each pair and all states are renamed with rename_state to order-preserving fresh names, and the chart is copied into two hosts; every (state, op) of the base BFS must give the same signature up to the renaming; transitions keep their ends and internal flag, initial/memory follow.',
+            'Differential oracle; guests without final states; code strings are opaque.',
+            '§4 C17'),
+    'C18': (MC, 'exhaustive enumeration of histories x snapshot boundary x continuations on the real Interpreter; lock-step comparison of twin, pickle-restored, deepcopy-restored and original',
+            'Every op sequence up to depth 3-4 over 9 ops on a chart with __old__ contracts, deep+shallow history, orthogonal state, delayed events and mutable event payloads is snapshotted (pickle, deepcopy) at its end; every continuation of depth 2 is run on a never-snapshotted twin, both restored copies and the original, and compared step by step.',
+            'One feature-dense chart; depth-bounded.',
+            '§4 C18'),
     'C13': (MC, 'explicit-state BFS over clock moves (between and inside steps), events and execute_once on the real Interpreter, lock-step with a reference time model',
             'BFS (depth 9-12) over clock advances, clock moves made by a listener or an action in the middle of a step, events and execute_once on two charts using after/idle/time in guards, actions and contracts; the reference entry/idle stamps predict every predicate value, the fired transitions, MacroStep.time, the time seen by code and by the step-started meta-event; SynchronizedClock == Interpreter.time after every operation.',
             'Integer times; predicates with d<=3 so ages are capped at 4 in the canonical state; idle() inside a transition\'s own post-side contracts is not constrained.',
